@@ -20,6 +20,72 @@ pub open spec fn supported(p: SecurityPolicy) -> bool { p != SecurityPolicy::Non
 pub open spec fn sig_len(p: SecurityPolicy) -> int {
     match p { SecurityPolicy::None => 0, SecurityPolicy::Basic128Rsa15 | SecurityPolicy::Basic256 => 20, _ => 32 }
 }
+// ---- environment for add_space_for_padding_and_signature
+pub struct DecodingOptions { pub x: u8 }
+pub struct SymmetricSecurityHeader { pub token_id: u32 }
+pub struct AsymmetricSecurityHeader { pub x: u8 }
+pub enum SecurityHeader { Asymmetric(AsymmetricSecurityHeader), Symmetric(SymmetricSecurityHeader) }
+pub struct ChunkInfo { pub security_header: SecurityHeader, pub body_length: usize, pub sequence_header_offset: usize }
+pub struct MessageChunk { pub data: Vec<u8> }
+// the body length recorded in a chunk's headers (message size minus the three headers): a function of its bytes
+pub uninterp spec fn spec_body_len(data: Seq<u8>) -> usize;
+impl MessageChunk {
+    // ChunkInfo::new (stream decoding of the three headers): for a MSG/CLO chunk the security header is the symmetric
+    // one and the body lies inside the chunk
+    #[verifier::external_body]
+    pub fn chunk_info(&self, secure_channel: &SecureChannel) -> (r: Result<ChunkInfo, StatusCode>)
+        ensures r is Ok ==> r->Ok_0.security_header is Symmetric && r->Ok_0.body_length <= self.data@.len()
+            && r->Ok_0.body_length == spec_body_len(self.data@),
+    { unimplemented!() }
+}
+// std::io::Cursor<Vec<u8>> used as an append-only writer from position 0 of an empty vector
+pub struct Cursor { pub buf: Vec<u8> }
+impl Cursor {
+    pub fn new(buf: Vec<u8>) -> (r: Cursor) requires buf@.len() == 0, ensures r.buf@ == buf@ { Cursor { buf } }
+    #[verifier::external_body]
+    pub fn write(&mut self, data: &[u8]) -> (r: Result<usize, StatusCode>)
+        ensures final(self).buf@ == old(self).buf@ + data@,
+    { unimplemented!() }
+    pub fn into_inner(self) -> (r: Vec<u8>) ensures r@ == self.buf@ { self.buf }
+}
+// types::encoding::write_bytes / write_u8 (over `&mut dyn Write`): append `count` copies of the byte / one byte
+#[verifier::external_body]
+pub fn write_bytes(stream: &mut Cursor, value: u8, count: usize) -> (r: Result<usize, StatusCode>)
+    ensures r is Ok ==> final(stream).buf@ == old(stream).buf@ + Seq::new(count as nat, |i: int| value),
+{ unimplemented!() }
+#[verifier::external_body]
+pub fn write_u8(stream: &mut Cursor, value: u8) -> (r: Result<usize, StatusCode>)
+    ensures r is Ok ==> final(stream).buf@ == old(stream).buf@.push(value),
+{ unimplemented!() }
+// the Part 6 padding count, as proved for the real padding_size in unit c07_sizes
+pub open spec fn secured(c: &SecureChannel) -> bool {
+    c.security_policy != SecurityPolicy::None && c.security_mode != MessageSecurityMode::None
+}
+pub open spec fn spec_pad(sec: bool, body: usize, sig: usize) -> usize {
+    if !sec { 0 } else {
+        let e = 8 + body + sig + 1;
+        if e % 16 != 0 { (1 + (16 - e % 16)) as usize } else { 1 }
+    }
+}
+pub uninterp spec fn spec_with_size(data: Seq<u8>, size: nat) -> Seq<u8>;
+impl SecureChannel {
+    // contracts proved on the real functions in units c07_sizes / c09_total
+    #[verifier::external_body]
+    pub fn signature_size(&self, security_header: &SecurityHeader) -> (r: usize)
+        requires self.security_policy != SecurityPolicy::Unknown, security_header is Symmetric,
+        ensures r == sig_len(self.security_policy),
+    { unimplemented!() }
+    #[verifier::external_body]
+    pub fn padding_size(&self, security_header: &SecurityHeader, body_size: usize, signature_size: usize) -> (r: (usize, usize))
+        requires self.security_policy != SecurityPolicy::Unknown, body_size <= 0x1000_0000, signature_size <= 256, security_header is Symmetric,
+        ensures r.0 == spec_pad(secured(self), body_size, signature_size), secured(self) ==> r.1 == 1, !secured(self) ==> r.1 == 0,
+    { unimplemented!() }
+    #[verifier::external_body]
+    pub fn update_message_size_and_truncate(data: Vec<u8>, message_size: usize, decoding_options: &DecodingOptions) -> (r: Result<Vec<u8>, StatusCode>)
+        requires message_size <= data@.len(),
+        ensures r is Ok ==> r->Ok_0@ == spec_with_size(data@, message_size as nat).subrange(0, message_size as int),
+    { unimplemented!() }
+}
 impl SecurityPolicy {
     // hash::hmac_sha1 / hmac_sha256: fill `signature` (which must have the digest size) with HMAC(key, data)
     #[verifier::external_body]
@@ -62,6 +128,19 @@ SPEC = {
                 // nothing before the signed range is touched
                 &&& final(dst)@.subrange(0, signed_range.start as int) == old(dst)@.subrange(0, signed_range.start as int)
             }),'''),
+    'add_space_for_padding_and_signature': ('r', '''        requires self.security_policy != SecurityPolicy::Unknown, message_chunk.data@.len() <= 0x1000_0000,
+        ensures r is Ok ==> ({
+            let data = message_chunk.data@;
+            let sig = sig_len(self.security_policy) as nat;
+            ({
+                let body = spec_body_len(data);
+                let pad = spec_pad(secured(self), body, sig as usize) as nat;
+                let total = data.len() + pad + sig;
+                // the chunk, then `pad` bytes each holding pad - 1 (the padding size field counts the bytes after
+                // itself), then room for the signature, with the size field of the header set to the new length
+                r->Ok_0@ == spec_with_size(data + Seq::new(pad, |i: int| ((pad - 1) as u8)) + Seq::new(sig, |i: int| 0u8), total).subrange(0, total as int)
+            })
+        }),'''),
     'symmetric_sign_and_encrypt': ('r', '''        requires
             self.security_mode == MessageSecurityMode::Sign || self.security_mode == MessageSecurityMode::SignAndEncrypt,
             supported(self.security_policy), self.local_keys is Some, src@.len() <= 0x7fff_ffff,
@@ -100,10 +179,10 @@ def build(manifest):
     sp = Src('crypto/security_policy.rs', manifest)
     en = Src('types/service_types/enums.rs', manifest)
     types = '\n'.join([sp.enum('SecurityPolicy'), en.enum('MessageSecurityMode'),
-                       sc.struct('SecureChannel', keep_fields=['security_policy', 'security_mode', 'local_keys'])])
+                       sc.struct('SecureChannel', keep_fields=['security_policy', 'security_mode', 'local_keys', 'decoding_options'])])
     f = {'symmetric_signature_size': sp.impl_fn(r'^impl SecurityPolicy \{', 'symmetric_signature_size')}
     order = ['local_keys', 'signing_key', 'encryption_keys', 'expect_supported_security_policy', 'symmetric_sign',
-             'symmetric_sign_and_encrypt']
+             'symmetric_sign_and_encrypt', 'add_space_for_padding_and_signature']
     for n in order:
         f[n] = sc.impl_fn(r'^impl SecureChannel \{', n)
     for k in f:
@@ -129,6 +208,19 @@ def build(manifest):
                     assert(dst_tmp@.subrange(encrypted_range.start as int, n) =~= (src@.subrange(0, e) + mac).subrange(encrypted_range.start as int, n));
                 }''', before=True)
     f['symmetric_sign_and_encrypt'] = g
+    h = full_slice(f['add_space_for_padding_and_signature'], 'message_chunk.data')
+    h = splice_at(h, r'^\s*let padding_byte = \(\(padding_size - 1\) & 0xff\) as u8;', '''                proof {
+                    let x: usize = (padding_size - 1) as usize;
+                    assert((x & 0xff) as u8 == x as u8) by (bit_vector)
+                        requires x <= 16;
+                }''', before=False)
+    h = splice_at(h, r'^\s*let message_size = data\.len\(\) \+ padding_size \+ signature_size;', '''        proof {
+            let d = message_chunk.data@;
+            let pad = padding_size as nat;
+            let sig = signature_size as nat;
+            assert(stream.buf@ =~= d + Seq::new(pad, |i: int| ((pad - 1) as u8)) + Seq::new(sig, |i: int| 0u8));
+        }''', before=True)
+    f['add_space_for_padding_and_signature'] = h
     a = Asm()
     a.add('use vstd::prelude::*;\nverus! {\nglobal size_of usize == 8;\n', 'prelude', 'env')
     a.add(norm_vis(types), 'types', 'env')
